@@ -466,6 +466,11 @@ class Interp:
         return UNINIT
 
     def construct(self, cls, arg_nodes, env, ctor_key=None, node=None):
+        ch_ = getattr(self, "ctor_hooks", None)
+        if ch_ and cls in ch_ and not (node is not None and node.get("copy")):
+            o = self.new_obj(cls)
+            ch_[cls](self, o, arg_nodes, env)
+            return o
         ctor = self.prog.by_key.get(ctor_key) if ctor_key else None
         if ctor is None and ctor_key is None:
             # default construction
@@ -1643,6 +1648,21 @@ class Interp:
             return o
         if nm in ("printf", "fprintf", "err_printf", "db_printf", "fflush"):
             return 0
+        if nm == "find" and len(args) == 3:
+            b, e = self.ev(args[0], env), self.ev(args[1], env)
+            v = self.ev(args[2], env)
+            if isinstance(b, Iter) and isinstance(e, Iter) and b.v is e.v and isinstance(b.v, Vec):
+                for i_ in range(b.i, e.i):
+                    x = b.v.items[i_]
+                    same = (x is v) if isinstance(v, (Obj, Vec)) or v is None or isinstance(x, (Obj, Vec)) else self.compare(x, "==", v)
+                    if same:
+                        return Iter(b.v, i_)
+                return Iter(b.v, e.i)
+        if nm == "reverse" and len(args) == 2:
+            b, e = self.ev(args[0], env), self.ev(args[1], env)
+            if isinstance(b, Iter) and isinstance(e, Iter) and b.v is e.v and isinstance(b.v, Vec):
+                b.v.items[b.i:e.i] = b.v.items[b.i:e.i][::-1]
+                return None
         if nm in ("sort", "stable_sort", "unique") and len(args) == 2:
             b, e = self.ev(args[0], env), self.ev(args[1], env)
             if isinstance(b, Iter) and isinstance(e, Iter) and b.v is e.v and isinstance(b.v, Vec):
